@@ -17,7 +17,7 @@ EXPLANATION = (
     "by a raw String; (R4) keyword / built-in name recognition goes through cmp_str or "
     "eq_ignore_ascii_case; (R5) exactly the CR[LF] and LF line endings are recognised; (R6) the "
     "lexer never matches an ASCII letter constant exactly; (R7) two characters of program text are "
-    "never compared (order or equality) without case folding.")
+    "never compared (order or equality) without case folding; (R10) every parser function that recognises the end of a line as the end of something recognises a colon too, or is tabled with the reason a colon is no alternative there; (R11) no token rule of the lexer raises a fatal error, because the lexer also tokenises comment and string text.")
 NOT_DECIDED = [
     "equality of parse trees under layout transformations (blanks, comments, colon vs newline)",
     "row counting in create_row_col_view beyond presence of the CR / LF guards",
@@ -354,6 +354,119 @@ def r7_char_comparisons(ctx, rule="C09.R7"):
     ctx.require(rule, 2)
 
 
+def r10_statement_end_is_eol_or_colon(ctx, rule="C09.R10"):
+    """`whether consecutive statements are separated by a newline or a colon`: every parser function
+    that recognises the Eol token as the end of something must recognise ':' as well, unless it is
+    tabled with the reason a colon is no alternative there (comment text, string text, blank-line
+    skipping after the separator, the lexer rules that produce Eol).  Token classes are read from the
+    constants of each function, its closures and promoted constants (the any_token_of! tables and
+    the operands of matches_token)."""
+    prog = ctx.prog
+    table = json.load(open(os.path.join(VERIF, "tables", "eol_without_colon.json")))["functions"]
+
+    def consts_of(body, acc):
+        def opk(o):
+            k = o.get("k") if isinstance(o, dict) else None
+            if isinstance(k, dict) and k.get("ty") == "char" and "int" in k:
+                acc["chars"].add(chr(k["int"]))
+        for blk in body.blocks:
+            for st in blk["s"]:
+                if st["k"] != "assign":
+                    continue
+                r = st["r"]
+                if r.get("k") == "agg" and (r.get("adt") or "").endswith("::TokenType"):
+                    acc["tt"].add(r["variant"])
+                for kk in ("o", "a", "b"):
+                    if kk in r and isinstance(r[kk], dict):
+                        opk(r[kk])
+                for o in r.get("ops", []):
+                    opk(o)
+            t = blk["t"]
+            if t["k"] == "call":
+                for a in t["args"]:
+                    opk(a)
+    owners = {}
+    for f in prog.fns.values():
+        if f.crate != "rusty_parser" or f.kind == "const":
+            continue
+        o = prog.enclosing_fn(f) or f
+        acc = owners.setdefault(o.path.split("::", 1)[1], {"tt": set(), "chars": set(), "fn": o})
+        consts_of(f.body, acc)
+        for pb in f.promoted:
+            consts_of(pb, acc)
+    n = 0
+    seen = set()
+    for name, acc in sorted(owners.items()):
+        if "Eol" not in acc["tt"]:
+            continue
+        n += 1
+        seen.add(name)
+        if ":" in acc["chars"]:
+            ctx.ok(rule, "%s:%s" % (rule, name), acc["fn"].loc, "recognises Eol and ':'")
+        elif name in table:
+            ctx.ok(rule, "%s:%s" % (rule, name), acc["fn"].loc, "Eol only, tabled: " + table[name])
+        else:
+            ctx.violation(rule, "%s:%s" % (rule, name), acc["fn"].loc,
+                          "%s recognises the end of a line (TokenType::Eol) but not ':' (it matches %s): where "
+                          "this parser decides that a statement has ended, `stmt : next` is treated differently "
+                          "from the same statements on two lines" % (name, sorted(acc["chars"])), {})
+    stale = [k for k in table if k not in seen]
+    if stale:
+        ctx.notes.append("%s: tabled functions that no longer recognise Eol (entries unused): %s" % (rule, stale))
+    ctx.analysed_units(rule, functions_recognising_eol=n)
+    ctx.require(rule, 6)
+
+
+SOFT_VARIANTS = ("Miss", "Expected")
+
+
+def _fatal_errors_built(prog, fn):
+    out = []
+    for f in [fn] + prog.closures_of(fn):
+        for blk in f.body.blocks:
+            for st in blk["s"]:
+                r = st.get("r", {})
+                if st["k"] == "assign" and r.get("k") == "agg" and (r.get("adt") or "").endswith("error::ParserError") \
+                        and r.get("variant") not in SOFT_VARIANTS:
+                    out.append(r["variant"])
+        for _b, t in f.body.calls():
+            nm = (t.get("cpath") or "").split("::")[-1]
+            if nm in ("to_fatal", "or_fail", "or_expected", "or_syntax_error"):
+                out.append(nm + "()")
+    return out
+
+
+def r11_lexer_is_total(ctx, rule="C09.R11"):
+    """`comments ... never change meaning`: the lexer turns ALL text into tokens, also the text of a
+    comment and of a string literal, where any character sequence is legal.  A token rule must
+    therefore never fail fatally - a fatal error (anything but Miss / Expected) raised while
+    tokenising is raised for comment text as well.  Limits on what a token may be (identifier
+    length ...) belong where the token is parsed as a name.  Every function of the lexer module
+    tokens::any_token is scanned for ParserError values other than the two soft variants and for the
+    combinators that turn a soft error into a fatal one; the same scan must find fatal errors in at
+    least ten functions of the parser proper (positive control)."""
+    prog = ctx.prog
+    lexer = [f for f in prog.fns.values() if f.crate == "rusty_parser" and f.kind != "closure"
+             and "::tokens::any_token::" in f.id + "::"]
+    n = 0
+    for f in sorted(lexer, key=lambda f: f.id):
+        n += 1
+        bad = _fatal_errors_built(prog, f)
+        name = f.path.split("::", 1)[1]
+        ctx.decide(not bad, rule, "%s:%s" % (rule, name), f.loc, "no fatal error is raised by this token rule",
+                   "the token rule %s raises a fatal error (%s): the lexer also tokenises the text of comments "
+                   "and string literals, so a comment (or a string) containing such text makes the whole program "
+                   "unparsable" % (name, ", ".join(sorted(set(bad)))))
+    # the scan must be able to see fatal errors: the parser proper raises them in many places
+    others = sum(1 for f in prog.fns.values() if f.crate == "rusty_parser" and f.kind != "closure"
+                 and f not in lexer and _fatal_errors_built(prog, f))
+    if others < 10:
+        raise CheckError("%s: only %d parser functions outside the lexer are seen raising a fatal error - "
+                         "the scan may be blind" % (rule, others))
+    ctx.analysed_units(rule, token_rules=n)
+    ctx.require(rule, 10)
+
+
 def run(ctx):
     common.install(ctx)
     r1_folding_pair(ctx)
@@ -367,3 +480,5 @@ def run(ctx):
     c02.r5_label_names_injective(ctx, "C09.R8")
     from . import c13
     c13.r3_default_types(ctx, "C09.R9")
+    r10_statement_end_is_eol_or_colon(ctx)
+    r11_lexer_is_total(ctx)
